@@ -333,7 +333,7 @@ func (r *refState) class() string {
 		}
 		if k := r.find(c.Before); k >= 0 {
 			x := r.live[k]
-			if x.After != "" && x.After != c.Name && (c.Reg < x.Reg || x.Before == "*" || x.After == "*") {
+			if x.After != "" && x.After != c.Name && (c.Reg < x.Reg || x.Before == "*" || x.After == "*" || r.afterReaches(x.Name, c.Name)) {
 				return "after-overwritten"
 			}
 		}
@@ -345,18 +345,6 @@ func (r *refState) class() string {
 			return "stale-request"
 		}
 	}
-	// replace-requests: a callback that carries a request of its own and is named by another callback has been
-	// Replaced (the plain copy takes over the name in the sorter's name table)
-	for _, x := range r.live {
-		if x.Hid == x.Reg || (x.Before == "" && x.After == "") {
-			continue
-		}
-		for _, c := range r.live {
-			if c.Name != x.Name && (c.Before == x.Name || c.After == x.Name) {
-				return "replace-requests"
-			}
-		}
-	}
 	if selfT {
 		return "self-target"
 	}
@@ -366,13 +354,29 @@ func (r *refState) class() string {
 	return ""
 }
 
+// afterReaches: following After requests from the callback named from reaches the callback named goal
+// (twin of C17_Known.after_reaches, fuel = number of live callbacks)
+func (r *refState) afterReaches(from, goal string) bool {
+	for fuel := len(r.live); fuel > 0; fuel-- {
+		k := r.find(from)
+		if k < 0 || r.live[k].After == "" {
+			return false
+		}
+		if r.live[k].After == goal {
+			return true
+		}
+		from = r.live[k].After
+	}
+	return false
+}
+
 // classCode: the constructor number of C17_Known.kclass
 var classCode = map[string]int{"": 0, "self-target": 1, "named-cycle": 2, "star-unsat": 3, "star-replace": 4,
-	"after-overwritten": 5, "self-target-silent": 6, "stale-request": 7, "replace-requests": 8}
+	"after-overwritten": 5, "self-target-silent": 6, "stale-request": 7}
 
 // star-replace (fixed by /repo e28c215) and self-target (fixed by 591f9f1) are labels only
 var knownClass = map[string]bool{"self-target-silent": true, "named-cycle": true, "star-unsat": true,
-	"after-overwritten": true, "stale-request": true, "replace-requests": true}
+	"after-overwritten": true, "stale-request": true}
 
 // sigOf: the class of the first in-domain step of the history whose state is in a KNOWN class ("" = none);
 // computed from the input only (twin of C17_CheckK.first_known).  Also returns the distinct classes and
